@@ -24,7 +24,8 @@ import (
 // closes the connection; a call never outlives its deadline.
 
 // ops: RDp RD1 RD0 (read deadline past / now+1s / zero), WDp WD1 WD0,
-// R (Read, data available), Rn (Read, no data ever), W (Write), S1 S2 (sleep 1s / 2s)
+// R (Read, data available), Rn (Read, no data ever), W (Write), S1 S2 (sleep 1s / 2s),
+// RDx WDx (the same absolute deadline now+1s set twice with 2 s of idling in between)
 type c18Params struct {
 	K   connCfg
 	Seq []string
@@ -82,6 +83,19 @@ func c18Setup(prm c18Params) func(c *fw.Ctx, name string) explore.Setup {
 					case "RD1":
 						nc.SetReadDeadline(at(time.Second))
 						rdl, rdlSet = w.Now+int64(time.Second), w.Now
+					case "RDx":
+						// the same absolute deadline set twice, having expired (idle) in between
+						t := at(time.Second)
+						nc.SetReadDeadline(t)
+						vtime.Sleep(2 * time.Second)
+						nc.SetReadDeadline(t)
+						rdl, rdlSet = w.Now, w.Now // a deadline in the past: as RDp, in force from the moment it is set
+					case "WDx":
+						t := at(time.Second)
+						nc.SetWriteDeadline(t)
+						vtime.Sleep(2 * time.Second)
+						nc.SetWriteDeadline(t)
+						wdl, wdlSet = w.Now, w.Now
 					case "RD0":
 						nc.SetReadDeadline(time.Time{})
 						rdl, rdlSet = c18None, w.Now
@@ -362,7 +376,7 @@ func c18Scenarios(tier string) []scenario {
 		cfg = explore.Config{P: 3, T: 2, E: 0, Horizon: 60e9}
 		depth = 4
 	}
-	ops := []string{"RDp", "RD1", "RD0", "WDp", "WD1", "WD0", "R", "Rn", "Rp", "W", "W0", "S1", "S2"}
+	ops := []string{"RDp", "RD1", "RD0", "WDp", "WD1", "WD0", "R", "Rn", "Rp", "W", "W0", "S1", "S2", "RDx", "WDx"}
 	var seqs [][]string
 	var gen func(cur []string)
 	gen = func(cur []string) {
@@ -381,7 +395,7 @@ func c18Scenarios(tier string) []scenario {
 			}
 			hasDL := false
 			for _, o := range cur {
-				if o == "RD1" || o == "RDp" {
+				if o == "RD1" || o == "RDp" || o == "RDx" {
 					hasDL = true
 				}
 				if o == "RD0" {
